@@ -312,7 +312,9 @@ def quantifier(I: Interp, node, fr, which):
             parts.append(z3.Implies(g, b) if which == "forall" else z3.And(g, b))
         return I.as_bool_sv(z3.And(*parts) if which == "forall" else z3.Or(*parts))
     st.n_fresh += 1
-    iv = z3.Int(f"{name}!q{st.n_fresh}")
+    # bound-variable names are tied to the quantifier's place in the spec text, so the same spec evaluated twice in
+    # the same state yields the very same term
+    iv = z3.Int(f"{name}!q{id(node) % 10**9}")
     qf = Frame(fr.module, fr.cls, fr.selfv, fr.finfo, fr, fr.contract)
     qf.locals[name] = SV(smt.mk_int(iv), T.INT)
     rng = z3.And(lo <= iv, iv < hi)
@@ -362,7 +364,7 @@ def quantifier_obj(I: Interp, node, fr, which):
             return I.as_bool_sv(z3.And(*parts) if parts else z3.BoolVal(True))
         return I.as_bool_sv(z3.Or(*parts) if parts else z3.BoolVal(False))
     st.n_fresh += 1
-    rv = z3.Int(f"{name}!o{st.n_fresh}")
+    rv = z3.Int(f"{name}!o{id(node) % 10**9}")
     qf = Frame(fr.module, fr.cls, fr.selfv, fr.finfo, fr, fr.contract)
     qf.locals[name] = SV(smt.mk_ref(rv), T.OBJ(cls.ci))
     rng = z3.And(rv > 0, rv < st.alloc, st.subclass_pred(z3.Select(st.arr("cls"), rv), cls.ci))
@@ -525,8 +527,22 @@ def inline_call(I: Interp, finfo: FuncInfo, selfv, args, kwargs, fr: Frame, node
     try:
         I.exec_block(finfo.node.body, nf)
     except ReturnEx as r:
-        return r.v
+        return refine_by_annotation(finfo, r.v)
     return const(None)
+
+
+def refine_by_annotation(finfo: FuncInfo, v):
+    """An inlined callee's declared return class sharpens the static hint of its result (a cast, assumption A7)."""
+    if not isinstance(v, SV) or finfo.node.returns is None:
+        return v
+    rty = T.strip_opt(return_type(finfo))
+    cur = T.strip_opt(v.ty)
+    if rty.k != "obj":
+        return v
+    if cur.k == "any" or (cur.k == "obj" and rty.a[0].is_subclass_of(cur.a[0]) and rty.a[0] is not cur.a[0]):
+        new = T.OPT(rty) if v.ty.k in ("opt", "any") else rty
+        return SV(v.t, new, v.c)
+    return v
 
 
 def return_type(finfo: FuncInfo) -> T.Ty:
@@ -595,7 +611,7 @@ def apply_contract(I: Interp, con: Contract, finfo: FuncInfo, selfv, args, kwarg
     finally:
         st.old_stack.pop()
         st.fresh_base.pop()
-    if not st.guards and st.solver.check() == z3.unsat:
+    if not st.guards and not st.consistent():
         raise Refuse(f"contract of {finfo.key} is inconsistent with the state at its call site (line {line}): vacuous proof refused")
     for kind, evargs, cond in pending_events:
         append_event(st, kind, evargs, cond)
